@@ -384,6 +384,56 @@ def r11_3(ctx, counts) -> RuleResult:
     return res
 
 
+def r11_5(ctx, counts) -> RuleResult:
+    model: Model = ctx.model
+    res = RuleResult(
+        'R11.5', 'SIGN-FROM-TEXT',
+        'In Timezone.fromstring the sign of the offset is read from the text (startswith("-"), a '
+        'regex group, a comparison of the first character): it is not decided by comparing the '
+        'integer value of the hours component with zero, because int("-00") == 0 loses the sign '
+        'of the offsets -00:01 … -00:59.')
+    cls = model.find_class('Timezone')
+    f = cls.methods.get('fromstring')
+    if f is None:
+        raise AnalysisError('Timezone.fromstring vanished')
+    int_names: set[str] = set()
+    for st in walk_local(f.node):
+        if isinstance(st, ast.Assign):
+            v = st.value
+            is_int = (isinstance(v, ast.Call) and dotted(v.func) == 'int') or \
+                (isinstance(v, ast.Call) and dotted(v.func) == 'map' and v.args and
+                 dotted(v.args[0]) == 'int')
+            if is_int:
+                for t in st.targets:
+                    for x in ast.walk(t):
+                        if isinstance(x, ast.Name):
+                            int_names.add(x.id)
+    text_sign = any(
+        (isinstance(c, ast.Call) and isinstance(c.func, ast.Attribute)
+         and c.func.attr in ('startswith', 'group', 'lstrip') and c.args
+         and isinstance(c.args[0], ast.Constant) and '-' in str(c.args[0].value))
+        or (isinstance(c, ast.Compare) and any(isinstance(k, ast.Constant) and k.value in ('-', '+')
+                                               for k in c.comparators))
+        for c in walk_local(f.node))
+    bad = [c for c in walk_local(f.node) if isinstance(c, ast.Compare) and len(c.ops) == 1
+           and isinstance(c.ops[0], (ast.Lt, ast.GtE, ast.Gt, ast.LtE))
+           and isinstance(c.comparators[0], ast.Constant) and c.comparators[0].value == 0
+           and ((isinstance(c.left, ast.Name) and c.left.id in int_names) or
+                (isinstance(c.left, ast.Call) and dotted(c.left.func) == 'int'))]
+    res.instances.append(f'{f.key}: sign read from the text={text_sign}; numeric sign tests on '
+                         f'int components: {len(bad)}')
+    if bad:
+        res.fail(finding('R11.5', f, bad[0], 'sign from int component',
+                         f'`{stmt_text(bad[0])}` decides the sign of the timezone from the integer '
+                         f'value of a component: "-00:30" parses as +00:30'))
+    elif not text_sign:
+        raise AnalysisError('Timezone.fromstring: no sign test located')
+    else:
+        res.ok()
+    counts['timezone_sign_tests'] = 1
+    return res
+
+
 def _clones(ctx, counts) -> RuleResult:
     """the 400/100/4-year cycle arithmetic of todelta/fromdelta and the date/time sibling
     classes are written as cloned blocks: the clones must be consistent"""
@@ -398,7 +448,8 @@ def _clones(ctx, counts) -> RuleResult:
 def run(ctx) -> dict:
     counts: dict[str, int] = {}
     return {
-        'results': [r11_1(ctx, counts), r11_2(ctx, counts), r11_3(ctx, counts), _clones(ctx, counts)],
+        'results': [r11_1(ctx, counts), r11_2(ctx, counts), r11_3(ctx, counts), _clones(ctx, counts),
+                    r11_5(ctx, counts)],
         'counts': counts,
         'explanation':
             'Only the last sentence of C11 is decided ("the component-extraction functions '
